@@ -146,6 +146,9 @@ let body lines =
     | "uptr" -> drive parse_uptr (pstep esize) show_ps pfinish (pstate0 n) ops
     | "umem" -> drive parse_umem mstep show_ms mfinish (mstate0 n) ops
     | "tup" -> List.iter (tuple_line k) ops
+    (* initializer_list element category: outside the model (its element is a number); the harness oracle carries it *)
+    | "il" -> List.iter (fun l -> match words l with
+        | ["fwd"; _; _] | ["one"; _] -> print_string "il ok\n" | _ -> print_string "badop\n") ops
     | _ -> print_string "badtype\n"
 
 let () = run_cases body
